@@ -118,7 +118,7 @@ def run(pid, tier, replay=None):
                 ("stack_p4_k3_f3", 4, 6, None, 8, (3, 3, 1)), ("stack_p2_k7_f4", 2, 11, None, 8, (7, 4, 1)),
                 ("sim_p9_l12", 9, 12, 400, 1, None)]
     else:
-        runs = [("exh_p4_l4", 4, 4, None, 5, None), ("exh_p2_l5", 2, 5, None, 3, None), ("exh_p1_l7", 1, 7, None, 2, None),
+        runs = [("exh_p4_l4", 4, 4, None, 5, None), ("exh_p1_l7", 1, 7, None, 2, None),
                 ("stack_p3_k3_f3_half", 3, 6, None, 0, (3, 3, 2)),
                 ("sim_p7_l9", 7, 9, 25, 0, None)]
     # the last element (k, f, m): "stacked" family = 1..k copies of one base interval, then every sequence of exactly
